@@ -168,6 +168,18 @@ def _sentinels() -> dict[str, Any]:
     S["weak_linspace_arange"] = lambda x: x + jnp.linspace(0.1, 0.7, 3) + jnp.arange(0.1, 0.35, 0.1)
     S["weak_full_in_scan_body"] = lambda x: lax.scan(lambda c, _: (c + jnp.full((3,), 0.7), jnp.where(c > 0, 0.7, 0.3)), x, None, length=2)[1].sum(0)
     S["weak_mean_of_literals"] = lambda x: x * jnp.mean(jnp.array([0.1, 0.7, 0.3])) + jnp.float_power(jnp.abs(x) + 0.5, 0.7)
+    # static Python-float parameters of lowerings (not jaxpr literals): each must reach a double export at full precision
+    oob = jnp.array([0, 5, 1, 7, 2])
+    S["static_gather_fill_value"] = lambda x: x.at[oob].get(mode="fill", fill_value=0.1) + x.at[oob].get(mode="fill", fill_value=0.7)[::-1]
+    S["static_scatter_set_add_mul"] = lambda x: x.at[1].set(0.1).at[0].add(0.7).at[2].multiply(0.3)
+    S["static_scatter_oob_drop"] = lambda x: x.at[jnp.array([0, 9])].set(0.1, mode="drop") + x.at[jnp.array([1, 9])].add(0.7, mode="drop")
+    S["static_nan_to_num"] = lambda x: jnp.nan_to_num(jnp.log(x), nan=0.1, neginf=-0.7, posinf=0.3)
+    S["static_activation_params"] = lambda x: jax.nn.leaky_relu(x, 0.1) + jax.nn.elu(x, 0.7) + jax.nn.celu(x, 0.3)
+    S["static_select_default_and_piecewise"] = lambda x: jnp.select([x > 0.7, x > 0.1], [x, x * 0.3], default=0.1) + jnp.piecewise(x, [x < 0.1, x >= 0.1], [0.7, lambda v: v * 0.3])
+    S["static_full_like_and_tri"] = lambda x: jnp.full_like(x, 0.1) + jnp.tril(jnp.full((3, 3), 0.7)) @ x + jnp.eye(3) @ x * 0.3
+    S["static_dynamic_update_slice_const"] = lambda x: lax.dynamic_update_slice(x, jnp.full((1,), 0.1), (1,)) + lax.pad(x, 0.7, [(1, 0, 0)])[:3]
+    S["static_clamp_round_sign"] = lambda x: lax.clamp(0.1, x, 0.7) + jnp.round(x * 3.3, 1) + jnp.sign(x) * 0.3
+    S["static_cumulative_and_logsumexp_b"] = lambda x: jnp.cumsum(x * 0.1) + jax.nn.logsumexp(x, b=0.7)
     S["full_ones_like"] = lambda x: x + jnp.full((3,), C) + jnp.ones_like(x) * (1.0 / 3.0)
     return S
 
